@@ -32,7 +32,9 @@ pub const STD: [&str; 13] = [
     "WWW-Authenticate",
     "Content-Type",
 ];
-pub const CUSTOM: [&str; 4] = ["X-A", "X-Request-Id", "x-lower", "Strict-Custom"];
+/// names used through the by-name entry point `.x()`: custom ones, and standard ones that no typed operation of this
+/// check touches (so that the two entry points never meet on one header)
+pub const CUSTOM: [&str; 7] = ["X-A", "X-Request-Id", "x-lower", "Strict-Custom", "Age", "Expires", "Allow"];
 pub const COOKIE_NAMES: [&str; 3] = ["sid", "theme", "a"];
 pub const CTS: [&str; 3] = ["application/octet-stream", "image/png", "text/csv"];
 
@@ -60,6 +62,10 @@ pub struct Case {
     /// the sink accepts at most this many bytes per `write` call (None: everything at once)
     #[serde(default)]
     pub short_write: Option<u16>,
+    /// at the start of this `write` call of the response's send, another (small) response is sent completely on the
+    /// same thread — what happens when two connections share a runtime thread and the first send is suspended
+    #[serde(default)]
+    pub interleave: Option<u8>,
 }
 
 pub const STATUSES: [u16; 64] = [
@@ -115,13 +121,13 @@ fn apply(res: &mut Response, op: &Op) {
         Op::Append(h, v) => set_std(res, *h, Action::Append(v.clone())),
         Op::Remove(h) => set_std(res, *h, Action::Remove),
         Op::SetX(n, v) => {
-            res.headers.set().x(CUSTOM[*n as usize % 4], v.clone());
+            res.headers.set().x(CUSTOM[*n as usize % CUSTOM.len()], v.clone());
         }
         Op::AppendX(n, v) => {
-            res.headers.set().x(CUSTOM[*n as usize % 4], append(v.clone()));
+            res.headers.set().x(CUSTOM[*n as usize % CUSTOM.len()], append(v.clone()));
         }
         Op::RemoveX(n) => {
-            res.headers.set().x(CUSTOM[*n as usize % 4], None::<Cow<'static, str>>);
+            res.headers.set().x(CUSTOM[*n as usize % CUSTOM.len()], None::<Cow<'static, str>>);
         }
         Op::Cookie(n, v, d) => {
             let d = *d;
@@ -198,10 +204,10 @@ fn model_of(case: &Case) -> Model {
             Op::Remove(h) => {
                 m.headers.remove(STD[*h as usize % STD.len()]);
             }
-            Op::SetX(n, v) => set(&mut m, CUSTOM[*n as usize % 4], v),
-            Op::AppendX(n, v) => app(&mut m, CUSTOM[*n as usize % 4], v),
+            Op::SetX(n, v) => set(&mut m, CUSTOM[*n as usize % CUSTOM.len()], v),
+            Op::AppendX(n, v) => app(&mut m, CUSTOM[*n as usize % CUSTOM.len()], v),
             Op::RemoveX(n) => {
-                m.headers.remove(CUSTOM[*n as usize % 4]);
+                m.headers.remove(CUSTOM[*n as usize % CUSTOM.len()]);
             }
             Op::Cookie(n, v, _) => m.cookies.push((COOKIE_NAMES[*n as usize % 3].to_string(), v.clone())),
             Op::Text(s) => {
@@ -260,7 +266,7 @@ fn small_text() -> impl Strategy<Value = String> {
 fn op_strategy() -> impl Strategy<Value = Op> {
     // bias toward re-use of the same few headers
     let h = prop_oneof![3 => 0u8..3, 1 => 0u8..(STD.len() as u8)];
-    let x = prop_oneof![3 => 0u8..2, 1 => 0u8..4];
+    let x = prop_oneof![3 => 0u8..2, 1 => 0u8..4, 2 => 4u8..7];
     prop_oneof![
         5 => (h.clone(), value_strategy()).prop_map(|(h, v)| Op::Set(h, v)),
         3 => (h.clone(), value_strategy()).prop_map(|(h, v)| Op::Append(h, v)),
@@ -289,12 +295,13 @@ fn has_invalid_value(case: &Case) -> bool {
 impl Property for C03 {
     type Case = Case;
     const ID: &'static str = "C03";
-    const RULE: &'static str = "generated: status from the whole Status enum × GET/HEAD × a history of 0–40 (thorough: up to 400, long enough to wrap the 8-bit slot index) public Response operations (set/append/remove on 13 standard headers incl. Content-Type and the misspelt Content-Encoding, 4 custom names, Set-Cookie with directive subsets, set_text/html/json/payload, drop_content), biased toward re-use of the same header; values printable ASCII/UTF-8 of length 0–5000 without CR/LF/NUL; framing headers never set by hand. Executed inside a real handler, through the real router (complete, HEAD handling) and serializer into a Vec. Oracle: independent response parser + a model of the history (name → latest value under an independently written canonical-name table; appends joined with ', '), framing rules of the statement, bytes written ≤ bytes reserved (hook H3 turns an overrun into a panic). Non-trivial = remove followed by set/append of the same header, or ≥ 3 operations on one header, or a content replacement/drop, or status 204/304, or HEAD; distinct by case.";
+    const RULE: &'static str = "generated: status from the whole Status enum × GET/HEAD × a history of 0–40 (thorough: up to 400, long enough to wrap the 8-bit slot index) public Response operations (set/append/remove on 13 standard headers incl. Content-Type and the misspelt Content-Encoding, 4 custom names and 3 standard names through the by-name entry point `.x()`, Set-Cookie with directive subsets, set_text/html/json/payload, drop_content), biased toward re-use of the same header; values printable ASCII/UTF-8 of length 0–5000 without CR/LF/NUL; framing headers never set by hand. Executed inside a real handler, through the real router (complete, HEAD handling) and serializer into a Vec. Oracle: independent response parser + a model of the history (name → latest value under an independently written canonical-name table; appends joined with ', '), framing rules of the statement, bytes written ≤ bytes reserved (hook H3 turns an overrun into a panic). Non-trivial = remove followed by set/append of the same header, or ≥ 3 operations on one header, or a content replacement/drop, or status 204/304, or HEAD; distinct by case.";
     const ASSUMPTIONS: &'static [&'static str] = &[
         "header values contain no CR/LF/NUL and Content-Length/Transfer-Encoding are never set by hand (documented as the user's responsibility)",
         "1xx and 304 are only checked for self-consistency (the statement does not mention them)",
         "the Date header comes from the frozen clock (hook H4)",
         "30% of the cases write into a sink that accepts only 1–2000 bytes per write call (a nearly full send buffer); what arrives must be the same bytes",
+        "15% of the cases send a second, fixed response on the same thread at the start of one of the write calls (two connections on one runtime thread, the first suspended in its output): both must arrive as if sent alone",
     ];
 
     fn new(_: Tier) -> Self {
@@ -319,7 +326,8 @@ impl Property for C03 {
         };
         let ops = len.prop_flat_map(|n| vec(op_strategy(), n));
         let short = prop::option::weighted(0.3, prop_oneof![2 => 1u16..=16, 2 => 17u16..=200, 1 => 201u16..=2000]);
-        ((0usize..STATUSES.len()), prop::bool::weighted(0.25), ops, short).prop_map(|(s, head, ops, short_write)| Case { status: STATUSES[s], head, ops, short_write }).boxed()
+        let interleave = prop::option::weighted(0.15, prop_oneof![3 => Just(0u8), 1 => 0u8..6]);
+        ((0usize..STATUSES.len()), prop::bool::weighted(0.25), ops, short, interleave).prop_map(|(s, head, ops, short_write, interleave)| Case { status: STATUSES[s], head, ops, short_write, interleave }).boxed()
     }
 
     fn check(&self, case: &Case, obs: &mut Obs) {
@@ -332,8 +340,8 @@ impl Property for C03 {
                 let (k, is_remove, is_set) = match op {
                     Op::Set(h, _) | Op::Append(h, _) => (format!("s{}", *h as usize % STD.len()), false, true),
                     Op::Remove(h) => (format!("s{}", *h as usize % STD.len()), true, false),
-                    Op::SetX(h, _) | Op::AppendX(h, _) => (format!("x{}", h % 4), false, true),
-                    Op::RemoveX(h) => (format!("x{}", h % 4), true, false),
+                    Op::SetX(h, _) | Op::AppendX(h, _) => (format!("x{}", *h as usize % CUSTOM.len()), false, true),
+                    Op::RemoveX(h) => (format!("x{}", *h as usize % CUSTOM.len()), true, false),
                     Op::Text(_) | Op::Html(_) | Op::Json(_) | Op::Payload(..) | Op::DropContent => {
                         content_ops += 1;
                         continue;
@@ -364,9 +372,34 @@ impl Property for C03 {
         if case.short_write.is_some() {
             obs.label("short-writes")
         }
+        // the other response of an interleaved send, first on its own (its bytes do not depend on anything else)
+        let inner = || ohkami::Response::OK().with_text("the response of another connection served by the same thread");
+        let inner_alone: Option<Vec<u8>> = case.interleave.map(|_| {
+            let mut v = Vec::new();
+            let _ = crate::core::exec::block_on(ohkami::__verif__::send(inner(), &mut v));
+            v
+        });
+        let inner_got: std::rc::Rc<RefCell<Option<Vec<u8>>>> = std::rc::Rc::new(RefCell::new(None));
+        if let Some(k) = case.interleave {
+            obs.label("interleaved-send");
+            let slot = inner_got.clone();
+            drive::set_write_hook(Some(Box::new(move |call| {
+                if call == k as usize && slot.borrow().is_none() {
+                    let mut v = Vec::new();
+                    let _ = crate::core::exec::block_on(ohkami::__verif__::send(inner(), &mut v));
+                    *slot.borrow_mut() = Some(v);
+                }
+            })));
+        }
         let before = drive::set_write_limit(case.short_write.map(|n| n as usize));
         let ran = panic::catch(std::panic::AssertUnwindSafe(|| drive::drive_one(&self.router, &bytes)));
         drive::set_write_limit(before);
+        drive::set_write_hook(None);
+        if let (Some(alone), Some(got)) = (&inner_alone, inner_got.borrow().as_ref()) {
+            if alone != got {
+                obs.fail("interleaved-send:other-response-damaged", format!("a response sent on the same thread while this one was suspended in a write differs from the same response sent alone: {} bytes vs {} bytes", got.len(), alone.len()));
+            }
+        }
         let ex = match ran {
             Ok(Ok(ex)) => ex,
             Ok(Err(e)) => {
